@@ -224,6 +224,13 @@ func genDynamic(rng *rand.Rand, tier string) hlib.History {
 	nalts := 1 + rng.Intn(3)
 	capacity := int64(2 + rng.Intn(3))
 	nsrc := int(capacity) + rng.Intn(3)
+	wide := rng.Intn(3) == 0 // a deeper expiry heap: more sources, more rate sets (entry lifetimes in every order), few clock steps
+	if wide {
+		nalts = 3 + rng.Intn(3)
+		capacity = int64(5 + rng.Intn(5))
+		nsrc = int(capacity) + 2 + rng.Intn(5)
+		hlib.Count("dynamic_wide_tables", 1)
+	}
 	start := int64(1600000000)*1e9 + rng.Int63n(3e9)
 	h.Cfg = []int64{capacity, start, int64(len(rates))}
 	for _, r := range rates {
@@ -248,10 +255,24 @@ func genDynamic(rng *rand.Rand, tier string) hlib.History {
 	if tier == "thorough" {
 		nops = 40 + rng.Intn(200)
 	}
+	if wide && rng.Intn(2) == 0 {
+		// at ONE instant: three times as many sources as the table holds arrive one after the other, each with a rate set of
+		// its own: entries are inserted with expiry times in no particular order and every arrival beyond the capacity
+		// forgets the one nearest to expiry
+		hlib.Count("dynamic_single_instant_arrivals", 1)
+		for s := 0; s < 3*int(capacity) && len(h.Ops) < nops; s++ {
+			h.Ops = append(h.Ops, []int64{2, int64(rng.Intn(nalts)), int64(s), 1, -1})
+		}
+		nsrc = 3 * int(capacity)
+	}
 	for len(h.Ops) < nops {
 		switch r := rng.Intn(10); {
-		case r < 6:
-			req(int64(rng.Intn(nsrc)))
+		case r < 6 || (wide && r < 9):
+			if wide { // mostly requests that name a rate set: the entry's lifetime is that set's
+				h.Ops = append(h.Ops, []int64{2, int64(rng.Intn(nalts)), int64(rng.Intn(nsrc)), 1, -1})
+			} else {
+				req(int64(rng.Intn(nsrc)))
+			}
 		case r < 7: // one source switches between rate sets, others fill the limiter, a new source arrives
 			a := int64(rng.Intn(nsrc))
 			h.Ops = append(h.Ops, []int64{2, int64(rng.Intn(nalts)), a, 1, -1})
